@@ -266,3 +266,16 @@ Example sync_nonvacuous :
   let s := srun nat unit Z Z.compare (N.to_nat channel_buf_size) [EvSend nat unit Z a; EvWrite nat unit Z; EvTimeout nat unit Z; EvSend nat unit Z b] in
   s_queue nat unit Z s = [b] /\ w_best nat unit Z (sfinish nat unit Z Z.compare true s) = Some (8, 3%Z).
 Proof. vm_compute. split; reflexivity. Qed.
+
+(** ** the bytes of best_seen.json.  [write_best_seen_file] truncates the file, hands the text to a
+    background write and waits for it before returning (shape regenerated from the source):
+    after any history the file holds exactly the text of the last rewrite -- never a stale text
+    and never a mixture of two ([BestFile.unawaited_write_corrupts] shows both without the wait) *)
+From Cambrian Require Import BestFile.
+Example best_seen_write_is_awaited : best_seen_write_awaited = true.  Proof. reflexivity. Qed.
+Theorem best_seen_file_holds_last_text :
+  forall (A : Type) (evs : list (bev A)),
+    b_pending A (brun A best_seen_write_awaited evs) = [] /\
+    b_disk A (brun A best_seen_write_awaited evs) = last_text A evs.
+Proof. intros. exact (awaited_file_is_last_text A evs). Qed.
+Print Assumptions best_seen_file_holds_last_text.
